@@ -1,5 +1,5 @@
 From Coq Require Import ZArith.
-From DV Require Import Lca.
+From DV Require Import Lca CommitGraph.
 Require Extraction.
 Require Import ExtrOcamlBasic.
-Extraction "model.ml" find_lcas lca_fuel pick_max Z.succ.
+Extraction "model.ml" find_lcas lca_fuel pick_max encode_graph decode_graph decode_commit Z.succ.
